@@ -85,9 +85,8 @@ def _mhcustom_sample(logpfcn, x0, pparams, nsamples, custom_step, collect_sample
     device = logpx.device
     if collect_samples:
         samples = torch.empty((nsamples, *x0.shape), dtype=x.dtype, device=x.device)
-        samples[0] = x
 
-    for i in range(1, nsamples):
+    for i in range(nsamples):
         x = custom_step(x, *pparams)
         if collect_samples:
             samples[i] = x
